@@ -5,7 +5,8 @@ Domain   (a) line-boundary truncations of corpus files (quick: seeded sample; th
              delete brackets, byte flips, insertion of lexically loaded fragments, tails that end the file inside a comment, string,
              raw string, directive, template, ObjC / C# construct; (c) random byte strings with and without NUL / invalid UTF-8;
              (d) Hypothesis-generated C / C++ programs cut at a random byte;  x  all nine languages (each input also under a
-             language other than its own)  x  {default, curated profiles, random in-range whitespace / mod_ / cmt_ configs; debug_* and
+             language other than its own); thorough: (e) crash / timeout artifacts and new-coverage corpus entries of an in-process libFuzzer
+             target (fuzz/harness.cpp), every one re-run out of process  x  {default, curated profiles, random in-range whitespace / mod_ / cmt_ configs; debug_* and
              file-inserting options excluded; code_width in its realistic window}  x  with and without -q.
 Oracle   validity predicate on the ASan+UBSan binary: exit status in {0, 1} or 64..78 (the documented EX_* set); no signal; no
          sanitizer report; no uncaught exception; CPU time below the limit (8 s in the search, a hit is confirmed with 20 s twice);
@@ -140,6 +141,60 @@ def to_case(v):
     return mk(b, lang, rng, {'kind': 'generated-cut', 'seed': seed}, random.Random(family.cfg_seed(seed)))
 
 
+FUZZ_LANGS = ['C', 'CPP', 'D', 'CS', 'JAVA', 'OC', 'VALA', 'PAWN', 'ECMA']        # same order as fuzz/harness.cpp
+FUZZ_CFGS = [{}, {'indent_columns': '3', 'indent_with_tabs': '0', 'nl_max': '2'},
+             {'mod_full_brace_if': 'remove', 'mod_full_brace_for': 'add', 'mod_paren_on_return': 'add'},
+             {'code_width': '60', 'sp_arith': 'force', 'align_assign_span': '1'},
+             {'nl_if_brace': 'add', 'nl_brace_else': 'add', 'nl_fdef_brace': 'add', 'cmt_cpp_to_c': 'true'}]
+
+
+def libfuzzer_candidates(ctx, seconds):
+    """run the in-process libFuzzer target (coverage-guided) and return its artifacts and new corpus entries as cases for the
+    out-of-process oracle.  Nothing the fuzzer reports is believed before it reproduces through the CLI binary."""
+    import glob
+    import shutil
+    import subprocess
+    import tempfile
+    from vf import build
+    fz = build.ensure_fuzzer()
+    work = tempfile.mkdtemp(prefix='fuzz-', dir=run.scratch_root())
+    corp, art = os.path.join(work, 'corpus'), os.path.join(work, 'art')
+    os.makedirs(corp)
+    os.makedirs(art)
+    n = 0
+    for rel, lang in corpus.files():
+        p = os.path.join(corpus.input_root(), rel)
+        if os.path.getsize(p) < 4000 and lang in FUZZ_LANGS and n < 600:
+            run.write(os.path.join(corp, 'seed%04d' % n), bytes([FUZZ_LANGS.index(lang), n % len(FUZZ_CFGS)]) + corpus.read(rel))
+            n += 1
+    before = set(os.listdir(corp))
+    env = dict(os.environ, ASAN_OPTIONS='detect_leaks=0:allocator_may_return_null=1', UBSAN_OPTIONS='halt_on_error=1')
+    cmd = [fz, '-fork=%d' % core.NPROC, '-detect_leaks=0', '-ignore_crashes=1', '-ignore_timeouts=1', '-ignore_ooms=1', '-timeout=20', '-rss_limit_mb=3000',
+           '-max_len=6000', '-seed=%d' % (ctx.seed % (2 ** 31)), '-max_total_time=%d' % seconds, '-artifact_prefix=' + art + '/', corp]
+    r = subprocess.run(cmd, capture_output=True, env=env, timeout=seconds + 600)
+    tail = r.stderr.decode('utf-8', 'replace').strip().splitlines()[-3:]
+    ctx.extra['libfuzzer'] = {'seconds': seconds, 'seed_inputs': n, 'final_lines': tail}
+    cases = []
+
+    def decode(path, kind):
+        b = run.read(path)
+        if len(b) < 3:
+            return
+        cases.append(family.Case(b[2:], FUZZ_LANGS[b[0] % 9], FUZZ_CFGS[b[1] % 5], {'kind': kind, 'cfgkind': 'fuzz-table'}, {'quiet': False, 'profile': None}))
+    arts = sorted(glob.glob(os.path.join(art, '*')))
+    for a in arts:
+        base = os.path.basename(a)
+        if base.startswith(('crash-', 'timeout-', 'oom-')):
+            decode(a, 'libfuzzer-' + base.split('-')[0])
+    new = sorted(set(os.listdir(corp)) - before)
+    ctx.extra['libfuzzer'].update({'artifacts': len(arts), 'new_corpus_entries': len(new)})
+    rng = random.Random(ctx.seed)
+    for f in (new if len(new) <= 6000 else rng.sample(new, 6000)):
+        decode(os.path.join(corp, f), 'libfuzzer-corpus')
+    shutil.rmtree(work, ignore_errors=True)
+    return cases
+
+
 def main(ctx):
     quick = ctx.tier == 'quick'
     _EX.update(family.exclusions(ctx))
@@ -200,6 +255,12 @@ def main(ctx):
         alpha = r.choice([bytes(range(32, 127)) + b'\n\t', bytes(range(256)), b'{}()[]<>;,:\'"\\/#*@$ \n\tabc01', b'\x00\xff\xfe\xef\xbb\xbf\xc0\x80ab \n'])
         src = bytes(r.choice(alpha) for _ in range(n))
         cases.append(mk(src, r.choice(LANGS), r, {'kind': 'random-bytes', 'i': i}))
+    if not quick:
+        # (e) coverage-guided candidates from the in-process libFuzzer target, judged out of process
+        try:
+            cases += libfuzzer_candidates(ctx, int(os.environ.get('VERIF_FUZZ_SECONDS', '600')))
+        except Exception as ex:      # the fuzzer is a candidate generator only: its failure is recorded, never a verdict
+            ctx.extra['libfuzzer'] = {'error': repr(ex)[:400]}
     raw = family.explore(ctx, judge, cases, batch=8)
     raw += family.hyp_explore(ctx, judge, make_strategy, to_case, shards=16, examples=(60 if quick else 3000))
     family.triage(ctx, judge, raw, minimise_src=20000, per_cluster=1, max_clusters=80)
